@@ -228,9 +228,13 @@ fn cli(binary: &str, cases_path: &str, out_path: &str) {
         let cache = runner.iset.cache();
         let mut lib_steps: Vec<Value> = vec![];
         let mut lib_done = false;
+        // one snapshot before every step, the last one before the step that finds EXEC empty (decided on the state, not
+        // on the value step() returns)
         for _ in 0..MAX_STEPS {
             lib_steps.push(snapshot(&st));
-            if PushInterpreter::step(&mut st, &mut runner.iset, &cache) {
+            let empty = st.exec_stack.size() == 0;
+            let _ = PushInterpreter::step(&mut st, &mut runner.iset, &cache);
+            if empty {
                 lib_done = true;
                 break;
             }
